@@ -28,6 +28,14 @@ def slow_api(ctx, execs):
     for nm in ["s01_step_wait_retry", "s16_wait_wait"]:
         for k in range(3 if ctx.quick else 12):
             items.append((CURATED[nm], {"seed": 320 + k, "timer_lag": (3.0, 45.0)[k % 2], "crash_prob": 0.6, "crash_max_step": 150, "max_inv": 16}))
+    # a helper thread of the handler is still inside a durable call (its synchronous record queued behind a call in flight) when the
+    # handler returns: the call must not return a result for a record the backend never got
+    helper = {"nodes": [{"k": "uthreads", "nojoin": True, "bodies": [[{"k": "step"}]]}]}
+    helper2 = {"nodes": [{"k": "step"}, {"k": "uthreads", "nojoin": True, "bodies": [[{"k": "step"}, {"k": "step"}], [{"k": "step"}]]}]}
+    for p in (helper, helper2):
+        for k in range(24 if ctx.quick else 120):
+            items.append((p, {"seed": 40 + k, "max_inv": 3, "api_latency": 75.0, "hang_after": 1000.0,
+                              "strategy": "pct" if k % 2 else "random"}))
     out = run_campaign(ctx, items)
     for e in out:
         for fn in (oracles.c03, oracles.c06, oracles.c07):
